@@ -18,6 +18,7 @@ from ..core.effects import root_name, store_targets
 from ..core.report import AnalysisError
 from ..expr.lift import Lifter, straight_paths, equal
 from ..core.template import find, has
+from ..core.canon import ct
 
 LEVEL = 'other'
 SURV = 'emg3d/surveys.py'
@@ -510,9 +511,27 @@ def rule_N4(ctx):
     ctx.anchor(len(sels) == 1, 'selection dictionary in select()')
     SEL = sels[0].targets[0].id
     m = find(f"{S}['data'][_k_] = self.data[_k_].sel(**{SEL})", lp[0])
-    mc = find(f"{S}['data'][_k_] = self.data[_k_].sel(**{SEL}).copy()",
-              lp[0]) or find(f"{S}['data'][_k_] = self.data[_k_].sel(**{SEL})"
-                             ".copy(deep=True)", lp[0])
+    # the value stored for every key is a COPY of the selection (also when it
+    # is bound to a local first)
+    mc = []
+    for st_, b_ in find(f"{S}['data'][_k_] = _v_", lp[0]):
+        V = st_.value
+        if isinstance(V, ast.Name):
+            defs_ = [d for d in ast.walk(lp[0]) if isinstance(d, ast.Assign)
+                     and any(isinstance(t, ast.Name) and t.id == V.id
+                             for t in d.targets)]
+            V = defs_[0].value if len(defs_) == 1 else V
+        sel_ = [c for c in ast.walk(V) if isinstance(c, ast.Call) and
+                isinstance(c.func, ast.Attribute) and c.func.attr == 'sel' and
+                ast.unparse(c.func.value) == f"self.data[{b_['_k_']}]" and
+                any(k.arg is None and ast.unparse(k.value) == SEL
+                    for k in c.keywords)]
+        cp_ = [c for c in ast.walk(V) if isinstance(c, ast.Call) and
+               isinstance(c.func, ast.Attribute) and c.func.attr == 'copy' and
+               any(x is sel_[0] for x in ast.walk(c.func.value))] \
+            if sel_ else []
+        if sel_ and cp_:
+            mc.append((st_, b_))
     ctx.check('C13.N4.copy', 'select: the selected data are copies',
               len(mc) == 1, 'with an empty selection `.sel()` returns the '
               "parent's own arrays: the selected survey shares observed data "
@@ -535,6 +554,30 @@ def rule_N4(ctx):
         any(m[0][0] is x for x in lp[0].body)
     ctx.check('C13.N4.select', 'select: every data variable .sel(**selection)',
               ok, 'not every data variable is cut with the one selection',
+              ctx.where(sm, lp[0]))
+    # which entries count as empty is decided on the OBSERVED data: the array
+    # that the nested helper tests with isnan has no definition outside the
+    # `key == 'observed'` arm of the loop over the data sets
+    gn = [n for n in ast.walk(fn) if isinstance(n, ast.FunctionDef) and
+          n is not fn]
+    okd = False
+    if gn:
+        isn = find('np.isnan(_d_)', gn[0])
+        if isn and isn[0][1]['_d_'].isidentifier():
+            D = isn[0][1]['_d_']
+            kv = ast.unparse(lp[0].target)
+            defs_ = [d for d in ast.walk(fn) if isinstance(d, ast.Assign) and
+                     any(isinstance(t, ast.Name) and t.id == D
+                         for t in d.targets)]
+            okd = bool(defs_) and all(
+                ct(f"{kv} == 'observed'") in au.guard_texts(d, fn) or any(
+                    ct(f"{kv} == 'observed'") in g
+                    for g in au.guard_texts(d, fn)) for d in defs_)
+    ctx.check('C13.N4.select', 'select: empty entries decided on the observed '
+              'data', okd, 'the array tested for NaN when removing empty '
+              'sources / receivers / frequencies is (re)bound outside the '
+              "`key == 'observed'` arm: with further data sets (noise arrays, "
+              'synthetic data) the last one decides what is removed',
               ctx.where(sm, lp[0]))
     ctx.check('C13.N4.select', 'select: reduced survey from the cut dict',
               has(f'_r_ = Survey.from_dict({S})', fn),
